@@ -622,6 +622,8 @@ def c10_parts(tier, seed):
             P("bound1-threads3", T, "sched", ["--part", "explore", "--threads", "3", "--bound", 1, "--scripts", "S1;S2;S5;S6;S7"], require=["schedules"], deadline_frac=0.9),
             P("deep-default", T, "sched", ["--part", "explore", "--threads", "2,3", "--bound", 0, "--scripts", "D1;D2;D3;D4;D5;D6;D7;D8;S16;S17"], require=["schedules"], deadline_frac=0.9),
             P("deep-bound1", T, "sched", ["--part", "explore", "--threads", "2", "--bound", 1, "--scripts", "D5"], require=["nontrivial"], deadline_frac=0.9),
+            P("threads6-default", T, "sched", ["--part", "explore", "--threads", "6", "--bound", 0, "--scripts", "S19"], workers=1, require=["schedules", "end_state_probes"], deadline_frac=0.9),
+            P("acktree-3", "c10_acktree", "sched", ["--nodes", 3, "--searches", 1], workers=6, require=["schedules", "trees"], deadline_frac=0.9),
         ]
     return [
         P("bound2-threads12", T, "sched", ["--part", "explore", "--threads", "1,2", "--bound", 2], require=["schedules", "determinism_checks"], deadline_frac=0.6),
@@ -630,6 +632,9 @@ def c10_parts(tier, seed):
         P("bound1-asan", T, "sched-asan", ["--part", "explore", "--threads", "2", "--bound", 1, "--scripts", "S1;S2;S3;S5;S7;S9"], require=["schedules"], deadline_frac=0.2),
         P("deep-default", T, "sched", ["--part", "explore", "--threads", "2,3,4", "--bound", 0, "--scripts", "D1;D2;D3;D4;D5;D6;D7;D8;S16;S17"], require=["schedules"], deadline_frac=0.2),
         P("deep-bound1", T, "sched", ["--part", "explore", "--threads", "2", "--bound", 1, "--scripts", "D5;D3;D8;S17"], require=["nontrivial"], deadline_frac=0.4),
+        P("bound1-threads6", T, "sched", ["--part", "explore", "--threads", "6", "--bound", 1, "--scripts", "S19"], require=["nontrivial", "end_state_probes"], deadline_frac=0.3),
+        P("acktree-3x2", "c10_acktree", "sched", ["--nodes", 3, "--searches", 2], workers=6, require=["schedules", "trees"], deadline_frac=0.5),
+        P("acktree-4", "c10_acktree", "sched", ["--nodes", 4, "--searches", 1], workers=16, require=["schedules", "trees"], deadline_frac=0.6),
     ]
 
 C10_COMMON = dict(
@@ -640,20 +645,29 @@ C10_COMMON = dict(
              "Threads change between searches, quit during search, option change + isready during search, EOF during search, KQK depth 2, ucinewgame between searches, no-legal-move root + "
              "searchmoves, stop after a search that ended by itself, option changes between / during searches followed by a clock-based go; where stated also 8 scripts with real multi-threaded searches "
              "(D1-D8) and 2 scripts changing Threads 8->6 and 2->7 (the worker tree changes shape at 6); scheduling points: every mutex lock/unlock, condition wait/notify, thread create/start/exit/join, sleep, sequentially "
-             "consistent atomic store/RMW (search, quitFlag, terminate, ponder, infinite, node counters); the script driver is a scheduled thread too (command arrival relative to search progress)",
-    oracle="in every execution: no deadlock (no enabled thread while some are unfinished), no livelock (step horizon), replay never diverges; transcript contract (exactly one bestmove per go, "
+             "consistent atomic store/RMW (search, quitFlag, terminate, ponder, infinite, node counters); the script driver is a scheduled thread too (command arrival relative to search progress); "
+             "script S19 (Threads 6: a helper with a helper of its own; go infinite / stop / second go); "
+             "ack-tree parts: the real ThreadCommunicator objects arranged in every rooted tree of up to 3 (thorough 4) nodes, fibers running the message loops of the engine thread and of "
+             "the helpers (start, optional result report, stop, acknowledgement; one or two searches), scheduling points = every mailbox mutex acquisition, ALL interleavings with caching "
+             "of the complete protocol state (mailboxes, counters, notifier flags, helper job state), no preemption bound",
+    oracle="at every search start (wrapped Communicator::sendInitSearch) and at session end, and in the ack-tree parts whenever the root has collected its acknowledgements: every helper has "
+           "jobId == -1, every communicator of the worker tree hasStopAck(), no start/stop/result/ack command is left in any mailbox; "
+           "in every execution: no deadlock (no enabled thread while some are unfinished), no livelock (step horizon), replay never diverges; transcript contract (exactly one bestmove per go, "
            "not before the releasing stop/ponderhit/quit/EOF/next go for ponder and infinite searches, one readyok per isready, no info after bestmove, well-formed lines), best move legal for the "
            "position of THAT go (S5: disjoint move sets expose results attributed to the wrong search), 0000 only without legal moves, child exit status 0",
     assumptions=["delay bounding: every choice other than the default scheduler's costs one deviation; the default scheduler keeps the running thread, treats sleeping and mailbox-polling "
                  "threads as yielding and rotates after 64 consecutive steps (starvation bound); relaxed atomic accesses (hash table words, time limits) and atomic loads are not "
-                 "scheduling points; sequentially consistent interleavings only", "Threads <= 3; roots with 0-6 legal moves keep a session at 300-4000 scheduling points"],
+                 "scheduling points; sequentially consistent interleavings only", "Threads <= 3 (6 for S19); roots with 0-6 legal moves keep a session at 300-4000 scheduling points",
+                 "ack-tree parts: the helper side (WorkerThread::mainLoop and WorkerThread::CommHandler, which cannot run without spawning OS threads) is mirrored statement by statement in the harness; "
+                 "Communicator / ThreadCommunicator (queues, counters, filters, forwarding) are the real code; the same protocol runs on the real WorkerThread in the session parts"],
 )
 CHECKS["C10"] = dict(
     parts=c10_parts,
     bound=dict(quick="delay bound 1 for all 15 control scripts with Threads 1 and 2; delay bound 2 for S1, S2, S4, S13 with Threads 1; delay bound 1 for 5 scripts with Threads 3; "
                      "8 scripts with real multi-threaded searches (D1-D8) and 2 scripts that change the thread count across 6 (S16, S17) under the default schedule with Threads 2, 3; "
-                     "the timed-ponderhit script D5 at delay bound 1",
-               thorough="delay bound 2 for all control scripts (Threads 1, 2), bound 1 with Threads 3, bound 3 for S1/S2/S13, search scripts with Threads 2-4 and bound 1 for D5/D3/D8/S17, "
+                     "the timed-ponderhit script D5 at delay bound 1; S19 (Threads 6) under the default schedule; stop/acknowledge protocol on all trees of <= 3 nodes, one search, all interleavings",
+               thorough="S19 at delay bound 1; stop/acknowledge protocol on all trees of <= 4 nodes (one search) and <= 3 nodes (two searches), all interleavings, under the deadline; "
+                        "delay bound 2 for all control scripts (Threads 1, 2), bound 1 with Threads 3, bound 3 for S1/S2/S13, search scripts with Threads 2-4 and bound 1 for D5/D3/D8/S17, "
                         "under the deadline (unfinished bounds reported as exhaustive:false)"),
     technique="stateless model checking of the real code: token-passing scheduler over hooked synchronisation points, iterative delay-bounded exhaustive exploration, replayable schedules",
     level_text="Every schedule of the real protocol/engine/helper threads within the delay bound is executed (in a forked child, deterministically replayable) and judged; this is exhaustive "
